@@ -69,10 +69,17 @@ def run_case(case):
             pairs = [(B, A) for B in D1 for A in D1]
             mine = pairs[case['chunk']::case['of']]
             # several conditionals per base so that the id pool is shared
-            for j in range(0, len(mine), 8):
+            es = None
+            for gi, j in enumerate(range(0, len(mine), 8)):
                 grp = mine[j:j + 8]
                 bb = impl.mk_bb(['a', 'b'], grp)
-                es = create_epistemic_state(bb, 'system-w', 'z3', 'rc2', False)
+                if es is not None and gi % 2 == 1:
+                    # the SAME epistemic state translated again for another base under the same keys
+                    # (a base revised in place): every dictionary entry must be the CNF of the current rule
+                    es['belief_base'] = bb
+                    contracts.LOG.bump('retranslations_of_one_state')
+                else:
+                    es = create_epistemic_state(bb, 'system-w', 'z3', 'rc2', False)
                 t = TseitinTransformation(es)
                 t.belief_base_to_cnf(True, True, True)
                 t.query_to_cnf(impl.mk_cond(*grp[0]))
